@@ -59,7 +59,7 @@ func C20_CallWithoutTxHash() {
 	vf.Assume(!panicked)
 	n1 := 0
 	k.IterateRequestContexts(ctx, func(tmbytes.HexBytes, types.RequestContext) bool { n1++; return false })
-	if vf.Choice("host", 3) != 2 {
-		chk("C20 C18", vf.And(err != nil, n1 == n0), "call-without-transaction-hash-refused")
-	}
+	// (the properties only demand that the handler does not panic; whether such a call is refused or given an id
+	// some other way is the module's choice - a refused call creates nothing, an accepted one exactly one context)
+	chk("C20 C18 C09", vf.And(vf.Implies(err != nil, n1 == n0), vf.Implies(err == nil, n1 == n0+1)), "call-creates-one-context-or-nothing")
 }
